@@ -12,6 +12,11 @@ Monitors
   canonical                    every member of the input's interchanger class
                                (BFS with model moves) has the same normal form
   refusal-only-if-disconnected NotImplementedError only on disconnected inputs
+  non-termination-reported     on a disconnected input the trace may cycle, but
+                               then NotImplementedError must be raised before the
+                               trace gets longer than the (finite, BFS-closed)
+                               interchanger class: decided on logical steps through
+                               the public `normalizer=` hook, never on wall-clock
   foliation                    foliate items sound; slices pairwise unwired;
                                flatten of the foliation == last foliate step;
                                depth == number of slices
@@ -201,15 +206,52 @@ def sound(ctx, monitor, d, result, interp, **extra):
     return good
 
 
-def normal_form(ctx, d, left, connected):
-    """ (value, refused). """
+class StepCapExceeded(Exception):
+    pass
+
+
+def guarded(cap):
+    """ A normalizer (public `normalizer=` hook) that counts rewrite steps. """
+    from discopy import monoidal
+
+    def normalizer(diagram, **params):
+        steps = 0
+        for step in monoidal.Diagram.normalize(diagram, **params):
+            steps += 1
+            if steps > cap:
+                raise StepCapExceeded(steps)
+            yield step
+    return normalizer
+
+
+def normal_form(ctx, d, left, connected, class_size=None):
+    """
+    (value, refused).  Termination is decided on logical steps: a connected
+    input gets 2 n^3 + 64 steps; a disconnected one can only cycle inside its
+    (finite) interchanger class, so a trace longer than the class without a
+    NotImplementedError means that non-termination is not being reported.
+    """
+    n = len(d)
+    cap = 2 * n ** 3 + 64 + (class_size or 0)
     try:
-        return d.normal_form(left=left), False
+        return d.normal_form(normalizer=guarded(cap), left=left), False
     except NotImplementedError:
         ctx.expect("refusal-only-if-disconnected", not connected,
                    diagram=lambda: safe_repr(d), offsets=d.offsets, left=left)
         ctx.refuse("NotImplementedError-on-disconnected" if not connected
                    else "NotImplementedError-on-connected")
+        return None, True
+    except StepCapExceeded:
+        if connected:
+            ctx.fail("terminates-within-cap", steps=cap, cap=cap, where="normal_form",
+                     diagram=safe_repr(d), offsets=d.offsets, left=left)
+        elif class_size is not None:
+            ctx.fail("non-termination-reported", steps=cap, class_size=class_size,
+                     reason="the rewrite trace is longer than the whole "
+                     "interchanger class, yet no NotImplementedError was raised",
+                     diagram=safe_repr(d), offsets=d.offsets, left=left)
+        else:
+            ctx.count("disconnected_class_not_closed_step_cap_hit")
         return None, True
 
 
@@ -221,6 +263,21 @@ def run_case(rng, ctx):
             else comb(rng, kit, rng.randint(2, 5))
     elif kind == 9:        # disconnected control
         d = kit.rand_diagram(rng, rng.randint(2, 6), width=rng.randint(0, 3))
+    elif kind == 7:        # disconnected: a connected piece next to scalars/states
+        d = rand_connected(rng, kit, rng.randint(1, 4), rng.randint(0, 2))
+        for _ in range(rng.randint(1, 3)):
+            s = kit.box_with_dom(rng, kit.Ty(), cod=kit.rand_ty(rng, rng.choice([0, 0, 1])))
+            where = rng.randrange(3)
+            if where == 0:
+                d = d @ s
+            elif where == 1:
+                d = s @ d
+            else:       # a scalar dropped somewhere in the middle
+                k = rng.randint(0, len(d))
+                top = d[:k]
+                w = rng.randint(0, len(top.cod))
+                scalar = kit.box_with_dom(rng, kit.Ty(), cod=kit.Ty())
+                d = top >> kit.id(top.cod[:w]) @ scalar @ kit.id(top.cod[w:]) >> d[k:]
     else:
         d = rand_connected(rng, kit, rng.choice([2, 3, 4, 5, 5, 6, 7, 8, 9]),
                            rng.randint(0, 4), tree=kind % 2 == 0)
@@ -256,7 +313,10 @@ def run_case(rng, ctx):
                               for _ in range(min(4, len(members) - 1))]:
             trace(ctx, build(d, member_layers), left, connected, interp)
         final = trace(ctx, d, left, connected, interp)
-        reference, refused = normal_form(ctx, d, left, connected)
+        reference, refused = normal_form(
+            ctx, d, left, connected, len(members) if closed else None)
+        if not connected and reference is not None or refused and not connected:
+            ctx.ok("non-termination-reported")
         if reference is None:
             continue
         if final is not None:
@@ -340,8 +400,9 @@ def foliation_case(ctx, d, connected, interp, members):
                    "to the input", flat=lambda: safe_repr(flat), **witness)
     if connected:
         try:
-            ctx.expect("foliation", flat.normal_form() == d.normal_form(),
+            ctx.expect("foliation", flat.normal_form(normalizer=guarded(4000))
+                       == d.normal_form(normalizer=guarded(4000)),
                        reason="flattened foliation has another normal form", **witness)
-        except NotImplementedError:
+        except (NotImplementedError, StepCapExceeded):
             ctx.fail("refusal-only-if-disconnected", diagram=safe_repr(d),
                      where="normal form of the flattened foliation")
